@@ -84,6 +84,119 @@ mod driver {
             Value::Object(out)
         })
     }
+
+    /// C04 (/rr/ replies): one inbound frame from a really connected peer B against a pending table installed in A's receive side
+    pub fn rr_reply(case: &Value) -> Value {
+        use crate::network::{NodeConfig, P2PNode, RequestResponseEnvelope};
+        if un(case, "frame.keepalive") == 1 || un(case, "frame.parsed") == 0 {
+            panic!("unknown driver outcome: keepalive / undecodable frames cannot be injected through the public send API");
+        }
+        let rt = tokio::runtime::Builder::new_multi_thread().worker_threads(4).enable_all().build().unwrap();
+        rt.block_on(async {
+            let cfg = || NodeConfig {
+                peer_id: None,
+                listen_addr: "127.0.0.1:0".parse().unwrap(),
+                listen_addrs: vec!["127.0.0.1:0".parse().unwrap()],
+                bootstrap_peers: vec![],
+                bootstrap_peers_str: vec![],
+                ..Default::default()
+            };
+            let a = P2PNode::new(cfg()).await.expect("node a");
+            a.start().await.expect("start a");
+            let b = P2PNode::new(cfg()).await.expect("node b");
+            b.start().await.expect("start b");
+            let mut events_a = a.subscribe_events();
+            let addr_a = a.listen_addrs().await.first().expect("addr a").to_string();
+            let a_id = b.connect_peer(&addr_a).await.expect("connect b->a");
+            tokio::time::sleep(Duration::from_millis(300)).await;
+            // learn the identity under which A sees B
+            b.send_message(&a_id, "verif-hello", b"hi".to_vec()).await.expect("hello");
+            let mut b_as_seen_by_a = String::new();
+            let deadline = tokio::time::Instant::now() + Duration::from_secs(10);
+            while tokio::time::Instant::now() < deadline {
+                if let Ok(Ok(P2PEvent::Message { topic, source, .. })) = tokio::time::timeout(Duration::from_millis(200), events_a.recv()).await {
+                    if topic == "verif-hello" {
+                        b_as_seen_by_a = source;
+                        break;
+                    }
+                }
+            }
+            assert!(!b_as_seen_by_a.is_empty(), "A never saw B");
+            let sender = un(case, "sender");
+            let name = |id: u64| if id == sender { b_as_seen_by_a.clone() } else { s(id) };
+            let (mid, oth) = (s(un(case, "mid")), s(un(case, "other")));
+            let th = a.transport().clone();
+            let mut rx_mid = None;
+            let mut rx_oth = None;
+            {
+                let mut reqs = th.active_requests.write().await;
+                if un(case, "R.reqs@mid.present") == 1 {
+                    let (tx, rx) = tokio::sync::oneshot::channel();
+                    rx_mid = Some(rx);
+                    reqs.insert(mid.clone(), PendingRequest { response_tx: tx, expected_peer: name(un(case, "R.reqs@mid.v1")) });
+                }
+                if un(case, "R.reqs@other.present") == 1 {
+                    let (tx, rx) = tokio::sync::oneshot::channel();
+                    rx_oth = Some(rx);
+                    reqs.insert(oth.clone(), PendingRequest { response_tx: tx, expected_peer: name(un(case, "R.reqs@other.v1")) });
+                }
+            }
+            let payload = b"verif-payload".to_vec();
+            let topic = if un(case, "frame.topic_is_rr") == 1 { "/rr/verif".to_string() } else { "verif-topic".to_string() };
+            let bytes = if un(case, "frame.envelope_ok") == 1 {
+                postcard::to_allocvec(&RequestResponseEnvelope { message_id: mid.clone(), is_response: un(case, "frame.is_response") == 1, payload: payload.clone() }).expect("envelope")
+            } else {
+                vec![0xffu8; 3]
+            };
+            b.send_message(&a_id, &topic, bytes).await.expect("frame");
+            tokio::time::sleep(Duration::from_millis(500)).await;
+            b.send_message(&a_id, "verif-sentinel", b"end".to_vec()).await.expect("sentinel");
+            let mut surfaced = false;
+            let deadline = tokio::time::Instant::now() + Duration::from_secs(10);
+            while tokio::time::Instant::now() < deadline {
+                if let Ok(Ok(P2PEvent::Message { topic: t, .. })) = tokio::time::timeout(Duration::from_millis(200), events_a.recv()).await {
+                    if t == topic {
+                        surfaced = true;
+                    }
+                    if t == "verif-sentinel" {
+                        break;
+                    }
+                }
+            }
+            let mut payload_ok = true;
+            let mut got = |rx: &mut Option<tokio::sync::oneshot::Receiver<Vec<u8>>>| -> bool {
+                match rx.as_mut().map(|r| r.try_recv()) {
+                    Some(Ok(p)) => {
+                        if p != payload {
+                            payload_ok = false;
+                        }
+                        true
+                    }
+                    _ => false,
+                }
+            };
+            let delivered_mid = got(&mut rx_mid);
+            let delivered_other = got(&mut rx_oth);
+            let mut out = Map::new();
+            out.insert("delivered_mid".into(), json!(delivered_mid));
+            out.insert("delivered_other".into(), json!(delivered_other));
+            out.insert("payload_ok".into(), json!(payload_ok));
+            out.insert("surfaced".into(), json!(surfaced));
+            let reqs = th.active_requests.read().await;
+            let unname = |t: &str| if t == b_as_seen_by_a { sender } else { sid(t) };
+            for (label, key) in [("mid", &mid), ("other", &oth)] {
+                // an entry whose receiver is gone (channel closed by a dropped sender) is reported as absent: it can no longer complete
+                out.insert(format!("post.reqs@{label}"), match reqs.get(key) {
+                    Some(p) => json!([un(case, &format!("R.reqs@{label}.v0")), unname(&p.expected_peer)]),
+                    None => Value::Null,
+                });
+            }
+            drop(reqs);
+            let _ = a.stop().await;
+            let _ = b.stop().await;
+            Value::Object(out)
+        })
+    }
 }
 
 #[cfg(all(test, verif_replay))]
@@ -93,6 +206,7 @@ fn verif_replay_entry() {
     let case: serde_json::Value = serde_json::from_str(&std::env::var("VERIF_REPLAY_CASE").unwrap_or_default()).expect("case json");
     let obs = match h.as_str() {
         "rr_send" => driver::rr_send(&case),
+        "rr_reply" => driver::rr_reply(&case),
         other => panic!("unknown driver {other}"),
     };
     println!("VERIF-OBS {}", obs);
